@@ -1,7 +1,167 @@
-(* C02 — initialised jobs persist and reopen exactly; opening is lazy. *)
-From SV Require Import Base Json MD5 Canon FS Ws CorrC02 C02Proofs.
+(* C02 — initialised jobs persist and reopen exactly; opening is lazy; id / prefix resolution.
+   This file only states theorems; proofs live in SV.C02Proofs / SV.WsInit / SV.FS.
+   The model (SV.Ws) is parameterised by frepr, the oracle for Python's float.__repr__. *)
+From SV Require Import Base Json MD5 Canon FS Ws WsLemmas WsInit CorrC02 C02Proofs.
 
+(* ---- opening is lazy *)
+(* open_job(statepoint) has no file-system component in its result other than the one it was given *)
 Theorem C02_open_by_statepoint_no_fs_effect : forall frepr w s sp,
   w_fs (fst (open_sp frepr w s sp)) = w_fs w /\ w_tr (fst (open_sp frepr w s sp)) = w_tr w.
 Proof. exact open_sp_no_fs_effect. Qed.
 Print Assumptions C02_open_by_statepoint_no_fs_effect.
+
+(* every read-only operation (open_job by state point / id / prefix, statepoint(), cached_statepoint,
+   id, path, iteration, len, in) leaves the tree and the trace of mutating steps unchanged *)
+Theorem C02_open_job_no_fs_effect : forall frepr w q o,
+  readonly o = true ->
+  let '(w1, q1, out) := step frepr w q o in
+  w_fs w1 = w_fs w /\ w_tr w1 = w_tr w /\ q1 = q.
+Proof. exact readonly_no_fs_effect. Qed.
+Print Assumptions C02_open_job_no_fs_effect.
+
+(* the handle's value is a copy: it reads back sp (statepoint() and cached_statepoint) and its id is
+   the hash of sp; Gallina values cannot alias, so later changes of the argument are invisible *)
+Theorem C02_open_job_no_alias : forall frepr w s sp,
+  let '(w1, h) := open_sp frepr w s sp in
+  snd (sp_read frepr w1 h) = inl sp /\ snd (cached_sp frepr w1 h) = inl sp /\ h_id (getH w1 h) = calc_id frepr sp.
+Proof. exact open_sp_reads_back. Qed.
+Print Assumptions C02_open_job_no_alias.
+
+(* ---- init *)
+(* init_post: on a workspace with nothing at the job's place, init succeeds, creates the directory named
+   by the id, the file holds exactly (dumps sp, parses to sp), the job validates, everything else is unchanged *)
+Theorem C02_init_post : forall frepr w h sp,
+  (h < length (w_hs w))%nat ->
+  h_cell (getH w h) = None -> h_cached (getH w h) = Some sp -> h_id (getH w h) = calc_id frepr sp ->
+  let wsd := wsp (getS w (h_s (getH w h))) in
+  let jd := wsd ++ [h_id (getH w h)] in
+  (forall k, (k <= length wsd)%nat -> get (w_fs w) (firstn k wsd) = Some Dir) ->
+  (forall q, under jd q = true -> get (w_fs w) q = None) ->
+  exists w', init frepr false false w h = (w', inl tt) /\
+    get (w_fs w') jd = Some Dir /\
+    get (w_fs w') (jd ++ [SPF]) = Some (File (sp_content frepr sp)) /\
+    valid_job frepr (w_fs w') wsd (h_id (getH w h)) sp /\
+    (forall q, q <> jd -> q <> jd ++ [SPF] -> get (w_fs w') q = get (w_fs w) q).
+Proof. exact init_fresh_post. Qed.
+Print Assumptions C02_init_post.
+
+(* whenever init returns normally (any prior state, with or without force), the state point file
+   exists, parses, and hashes to the handle's id *)
+Theorem C02_init_ok_validates : forall frepr susp force w h w',
+  (h < length (w_hs w))%nat -> init frepr susp force w h = (w', inl tt) ->
+  (exists v, load_file frepr w' (getH w' h) = inl v) /\ (exists ci, h_cell (getH w' h) = Some ci)
+  /\ h_id (getH w' h) = h_id (getH w h).
+Proof. exact init_ok_valid. Qed.
+Print Assumptions C02_init_ok_validates.
+
+(* init is idempotent: after a successful init, another one (even with force) succeeds without a
+   single file-system step *)
+Theorem C02_init_idempotent : forall frepr susp force susp' force' w h w',
+  (h < length (w_hs w))%nat -> init frepr susp force w h = (w', inl tt) ->
+  let '(w'', r) := init frepr susp' force' w' h in
+  r = inl tt /\ w_fs w'' = w_fs w' /\ w_tr w'' = w_tr w'.
+Proof. exact init_twice. Qed.
+Print Assumptions C02_init_idempotent.
+
+(* never rewrites a valid file: if the file loads and validates, init performs no mutating step *)
+Theorem C02_init_valid_no_write : forall frepr susp force w h,
+  (let '(w1, r) := sp_access frepr w h in
+   exists ci v, r = inl ci /\ load_file frepr w1 (getH w1 h) = inl v) ->
+  let '(w', r') := init frepr susp force w h in
+  r' = inl tt /\ w_fs w' = w_fs w /\ w_tr w' = w_tr w.
+Proof. exact init_valid_no_write. Qed.
+Print Assumptions C02_init_valid_no_write.
+
+(* ---- a fresh session finds the job *)
+(* with an empty cache, anything that resolves to the id of a valid job (full id or unique prefix)
+   opens a handle with that id whose statepoint() is exactly what the file holds; nothing is written *)
+Theorem C02_fresh_session_finds : forall frepr w si x i sp,
+  alookup x (s_cache (getS w si)) = None ->
+  resolve (w_fs w) (wsp (getS w si)) x = inl i ->
+  valid_job frepr (w_fs w) (wsp (getS w si)) i sp ->
+  exists w1 h, open_id w si x = (w1, inl h) /\ h_id (getH w1 h) = i /\
+               snd (sp_read frepr w1 h) = inl sp /\ w_fs w1 = w_fs w.
+Proof. exact open_id_finds. Qed.
+Print Assumptions C02_fresh_session_finds.
+
+(* ---- id resolution, for every prefix length and an arbitrary duplicate-free listing *)
+Theorem C02_resolve_unique : forall ids present i m,
+  NoDup ids -> (length i < 32)%nat -> In m ids -> str_prefix i m = true ->
+  (forall m', In m' ids -> str_prefix i m' = true -> m' = m) ->
+  resolve_ids ids present i = inl m.
+Proof. exact resolve_unique. Qed.
+Print Assumptions C02_resolve_unique.
+
+Theorem C02_resolve_ambiguous : forall ids present i a b,
+  (length i < 32)%nat -> In a ids -> In b ids -> a <> b ->
+  str_prefix i a = true -> str_prefix i b = true ->
+  resolve_ids ids present i = inr (FExn ELookupError).
+Proof. exact resolve_ambiguous. Qed.
+Print Assumptions C02_resolve_ambiguous.
+
+Theorem C02_resolve_unknown : forall ids present i,
+  (length i < 32)%nat -> (forall m, In m ids -> str_prefix i m = false) ->
+  resolve_ids ids present i = inr (FExn EKeyError).
+Proof. exact resolve_unknown. Qed.
+Print Assumptions C02_resolve_unknown.
+
+Theorem C02_resolve_full_id : forall ids present i,
+  (32 <= length i)%nat ->
+  resolve_ids ids present i = if present i then inl i else inr (FExn EKeyError).
+Proof. exact resolve_full. Qed.
+Print Assumptions C02_resolve_full_id.
+
+(* ---- licence for the correspondence step (partial).
+   FULL STATEMENT WANTED: forall c, mismatch_C02 c = false -> holds_C02 c = true.
+   PROVED: the two clauses of the oracle that are not re-checked from the implementation's own trees:
+   (a) the oracle's expectation for open_job(id=...) IS the model's resolution on the same listing, so
+       an implementation that agrees with the model on a lookup satisfies the oracle on it;
+   (b) after every read-only operation the model's own OQuiet observation is "nothing touched", so an
+       implementation that agrees with the model satisfies the oracle's laziness clause.
+   MISSING: the init clause for arbitrary histories (proved above for one init from a clean place,
+   C02_init_post, and for re-init, C02_init_idempotent), lifted over op sequences. *)
+Theorem C02_model_holds_partial :
+  (forall ids i,
+     expect_open ids i =
+     match resolve_ids ids (fun x => str_mem x ids) i with inl m => VStr m | inr e => VExn (exn_of e) end)
+  /\
+  (forall frepr w o, readonly o = true ->
+     let '(w1, q1, _) := step frepr w (length (w_tr w)) o in
+     snd (step frepr w1 q1 OQuiet) = VBool true).
+Proof. split; [exact resolve_expect|exact readonly_quiet]. Qed.
+Print Assumptions C02_model_holds_partial.
+
+(* ---- non-vacuity *)
+Definition ex_fr (f : fl) : str := [].
+Definition ex_sp : json := JObj [([97%N], JInt 1); ([98%N], JObj [([99%N], JArr [JBool true; JNull])])].
+Definition ex_A : path := [[65%N]].
+
+(* the hypotheses of C02_init_post hold in the world reached by Project(A); open_job(sp), and the model
+   run shows: open is quiet, init writes, re-init is quiet, a fresh session finds the job by id and prefix *)
+Example C02_example_run :
+  let i := calc_id ex_fr ex_sp in
+  run ex_fr w0 0 [ONewSession ex_A; OQuiet; OOpenSp 0 ex_sp; OQuiet; OInit 0 false; OQuiet; OInit 0 false; OQuiet;
+                  ONewSession ex_A; OOpenId 1 (firstn 5 i); OSp 1; OOpenId 1 [122%N]; OIds 1]
+  = [VUnit; VBool false; VStr i; VBool true; VUnit; VBool false; VUnit; VBool true;
+     VUnit; VStr i; VJson ex_sp; VExn EKeyError; VStrs [i]].
+Proof. vm_compute. reflexivity. Qed.
+
+Example C02_example_init_hyps :
+  let w := fst (open_sp ex_fr (fst (new_session w0 ex_A)) 0 ex_sp) in
+  (0 < length (w_hs w))%nat /\ h_cell (getH w 0) = None /\ h_cached (getH w 0) = Some ex_sp /\
+  h_id (getH w 0) = calc_id ex_fr ex_sp /\
+  get (w_fs w) (wsp (getS w 0)) = Some Dir /\ get (w_fs w) (wsp (getS w 0) ++ [h_id (getH w 0)]) = None.
+Proof. vm_compute. repeat split; auto. Qed.
+
+(* two ids sharing the prefix "ab": unique at length 3, ambiguous at length 2, unknown for "b" *)
+Example C02_example_resolve :
+  let a := [97;98;99]%N ++ repeat 48%N 29 in
+  let b := [97;98;100]%N ++ repeat 48%N 29 in
+  NoDup [a; b] /\
+  resolve_ids [a; b] (fun _ => false) [97;98;99]%N = inl a /\
+  resolve_ids [a; b] (fun _ => false) [97;98]%N = inr (FExn ELookupError) /\
+  resolve_ids [a; b] (fun _ => false) [98]%N = inr (FExn EKeyError).
+Proof.
+  simpl. repeat split; try reflexivity.
+  constructor; [intros [H|[]]; discriminate|]. constructor; [intros []|constructor].
+Qed.
